@@ -22,14 +22,15 @@ BACKENDS = {
 }
 
 BASE_FLAGS = ["--unwinding-assertions", "--slice-formula", "--drop-unused-functions", "--object-bits", "12"]
-SAFETY_FLAGS = ["--pointer-overflow-check"]  # CBMC 6 standard checks (bounds, pointer, div0, signed overflow, undefined shift, ...) are on by default
+SAFETY_FLAGS = ["--pointer-overflow-check"]
+NONDET_STATIC_RE = r".*/(lltdResponder|os)/.*\.c:(?!g_iface_states$|exitFlag$).*"  # CBMC 6 standard checks (bounds, pointer, div0, signed overflow, undefined shift, ...) are on by default
 
 
 class Query:
     def __init__(self, name, src, entry, defines=None, unwind=None, unwindset=None, replace=None,
                  safety=True, extra=None, backends=("cadical", "minisat"), timeout=600, mem_gb=8,
                  big_endian=False, isr=None, includes=None, replay=True, desc="", bounds=None,
-                 unwind_fail_is_violation=False, no_std_checks=False, expect_witness=True, remove_bodies=None, safety_for=("C01", "C18"), split=0):
+                 unwind_fail_is_violation=False, no_std_checks=False, expect_witness=True, remove_bodies=None, safety_for=("C01", "C18"), split=0, nondet_static=True):
         self.name = name; self.src = src; self.entry = entry
         self.defines = list(defines or []); self.unwind = unwind; self.unwindset = list(unwindset or [])
         self.replace = dict(replace or {}); self.safety = safety; self.extra = list(extra or [])
@@ -42,6 +43,7 @@ class Query:
         self.remove_bodies = list(remove_bodies or [])
         self.safety_for = tuple(safety_for)
         self.split = split
+        self.nondet_static = nondet_static
 
 
 class QResult:
@@ -97,6 +99,14 @@ def build(q, bdir):
         r = run(["goto-instrument"] + arg + [cur, nxt], cwd=bdir)
         if r.returncode != 0:
             raise RuntimeError("goto-instrument --remove-function-body failed for %s:\n%s" % (q.name, r.stderr[-3000:]))
+        cur = nxt
+    if q.nondet_static:
+        # hidden state of the core (function-local statics, new file-scope objects) starts arbitrary: it stands for whatever
+        # earlier calls - also on other interfaces - may have left there. The interface registry is set up by the harness.
+        nxt = os.path.join(bdir, "q.ns.gb")
+        r = run(["goto-instrument", "--nondet-static-matching", NONDET_STATIC_RE, cur, nxt], cwd=bdir)
+        if r.returncode != 0:
+            raise RuntimeError("goto-instrument --nondet-static-matching failed for %s:\n%s" % (q.name, r.stderr[-2000:]))
         cur = nxt
     if q.isr:
         nxt = os.path.join(bdir, "q.isr.gb")
